@@ -207,7 +207,26 @@ static void generalHistory(vh::Rng& rng, int L) {
       src.push_back(other.Emplace(CstType::term, "D1" + UNION + "X1"));
       for (const auto uid : f.InsertCopy(VectorOfEntities(src.begin(), src.end()), other.Core())) known.push_back(uid);
       what = "bulkinsert";
-    } else { f.SetConventionFor(pickUid(), "note X1"); what = "convention"; }
+    } else if (r < 98) { f.SetConventionFor(pickUid(), "note X1"); what = "convention"; }
+    else if (r < 99) {
+      // equations: RSEquationProcessor -> EquateTextsOf, RSCore::Translate of every constituent, UpdateState
+      const auto a = pickUid(), b2 = pickUid();
+      if (a != b2 && f.Contains(a) && f.Contains(b2)) {
+        const ops::EquationOptions eq{ a, b2 };
+        if (f.Ops().IsEquatable(eq)) { f.Ops().Equate(eq); known.erase(std::remove(known.begin(), known.end(), a), known.end()); }
+      }
+      what = "equate";
+    } else {
+      // the RSCore entry points of the Translate* family (what RSAggregator / InsertCopy drive), names of the text pool
+      const auto uid = pickUid();
+      const auto tr = CreateTranslator(StrSubstitutes{ { "X1", rng.chance(1, 2) ? "D1" : "X9" }, { "D2", "X1" } });
+      switch (f.Contains(uid) ? rng.range(0, 3) : 3) {
+      case 0: f.LoadCore().TranslateTexts(uid, tr); what = "translatetexts"; break;
+      case 1: f.LoadCore().TranslateTerm(uid, tr); what = "translateterm"; break;
+      case 2: f.LoadCore().TranslateDef(uid, tr); what = "translatedef"; break;
+      default: f.LoadCore().TranslateAll(tr); what = "translateall"; break;
+      }
+    }
     emit("c07 scratchimpl " + what, noSpace(scratchOracle(f)));
   }
 }
@@ -262,7 +281,22 @@ static std::string tReport(const Thesaurus& t) {
   }
   return out.empty() ? "-" : out;
 }
-static void textModelHistory(vh::Rng& rng, int L, bool fixedChain) {
+// what the mirrored histories keep out: a term that mentions its own entity (cachedForms, see above) and shared aliases
+static bool textStateOk(const Thesaurus& t) {
+  std::vector<std::string> seen;
+  for (const auto& cst : t) {
+    for (const auto in : t.TermGraph().InputsFor(cst.uid)) if (in == cst.uid) return false;
+    if (std::find(seen.begin(), seen.end(), cst.alias) != seen.end()) return false;
+    seen.push_back(cst.alias);
+  }
+  return true;
+}
+static std::string wireMap(const StrSubstitutes& m, const std::vector<std::string>& order) {
+  std::string out;
+  for (const auto& k : order) { if (!out.empty()) out += ","; out += vh::hex(k) + ">" + vh::hex(m.at(k)); }
+  return out.empty() ? "-" : out;
+}
+static void textModelHistory(vh::Rng& rng, int L, int fixedChain) {
   Thesaurus t;
   emit("c07 treset", "ok");
   std::vector<uint32_t> ids;
@@ -275,7 +309,44 @@ static void textModelHistory(vh::Rng& rng, int L, bool fixedChain) {
     emit("c07 treport", tReport(t));
   };
   auto refTo = [&](const std::string& a) { return "@{" + a + (rng.chance(1, 2) ? "|nomn,sing}" : "|datv,plur}"); };
-  if (fixedChain) {
+  if (fixedChain == 2) {
+    // the non-vacuity history of terms_eq_scratch_partial2 (renameHist ++ translateHist of Properties/C07.lean):
+    // X1 "множество" <- term of D1 <- definition text of D2; X1 is renamed to X5 WITH substitution, then the Translate* family
+    auto one = [&](const std::string& line) { emit(line, "ok"); emit("c07 treport", tReport(t)); };
+    auto mp = [&](std::initializer_list<std::pair<std::string, std::string>> l) {
+      StrSubstitutes m; std::vector<std::string> order;
+      for (const auto& p : l) { m.insert(p); order.push_back(p.first); }
+      return std::pair{ m, wireMap(m, order) };
+    };
+    ins(1, "X1", "\xD0\xBC\xD0\xBD\xD0\xBE\xD0\xB6\xD0\xB5\xD1\x81\xD1\x82\xD0\xB2\xD0\xBE", "");
+    ins(2, "D1", "\xD0\xB1\xD0\xBE\xD0\xBB\xD1\x8C\xD1\x88\xD0\xBE\xD0\xB5 @{X1|nomn,sing}", "");
+    ins(3, "D2", "", "\xD1\x81\xD0\xBC. @{D1|nomn,sing} \xD0\xB4\xD0\xB0\xD0\xBB\xD0\xB5\xD0\xB5");
+    t.SetAliasFor(1, "X5", true); one("c07 talias 1 " + hx("X5") + " 1");
+    { const auto [m, w] = mp({ { "X5", "X1" } }); t.Translate(2, CreateTranslator(m)); one("c07 ttr 2 " + w); }
+    { const auto [m, w] = mp({ { "D1", "D7" }, { "X5", "X2" } }); t.SubstitueAliases(CreateTranslator(m)); one("c07 tsubst " + w); }
+    { const auto [m, w] = mp({ { "X2", "X5" } }); t.TranslateTerm(2, CreateTranslator(m)); one("c07 ttrt 2 " + w); }
+    { const auto [m, w] = mp({ { "D7", "D1" } }); t.TranslateDef(3, CreateTranslator(m)); one("c07 ttrd 3 " + w); }
+    { const auto [m, w] = mp({ { "X5", "X2" }, { "D1", "D7" } }); t.TranslateAll(CreateTranslator(m)); one("c07 ttrall " + w); }
+    t.Erase(1); one("c07 terase 1");
+    return;
+  }
+  if (fixedChain == 3) {
+    // histTextDup (terms_dup_alias_counterexample): two entities with the alias D2, the one the mention denotes is erased,
+    // the other one is edited; the real code must behave as the model in the incremental AND in the rebuilt state
+    // (which differ from each other: the history is outside the admissible class, no oracle on these lines)
+    auto insx = [&](uint32_t uid, const std::string& a, const std::string& term) {
+      t.Emplace(uid, a, lang::LexicalTerm{ term }, lang::ManagedText{});
+      emit("c07 tins " + std::to_string(uid) + " " + hx(a) + " " + hx(term) + " -", "ok");
+    };
+    insx(1, "D2", "w1"); insx(2, "D2", "w2"); insx(3, "D3", "w3 @{D2|nomn,sing}");
+    t.Erase(1); emit("c07 terase 1", "ok");
+    t.SetTermFor(2, "n6"); emit("c07 tset 2 " + hx("n6"), "ok");
+    emit("c07 treportx", tReport(t));
+    Thesaurus rebuilt = t; rebuilt.UpdateState();
+    emit("c07 tscratchx", tReport(rebuilt));
+    return;
+  }
+  if (fixedChain == 1) {
     // X1 <- term of D1 <- definition text of D2; then the term of X1 is edited
     ins(1, "X1", "alpha", "");
     ins(2, "D1", "big @{X1|nomn,sing}", "");
@@ -295,6 +366,39 @@ static void textModelHistory(vh::Rng& rng, int L, bool fixedChain) {
   auto aliasOf = [&](uint32_t uid) { return t.Contains(uid) ? t.At(uid).alias : std::string("Q9"); };
   for (int step = 0; step < L; ++step) {
     const auto u = pick();
+    if (rng.chance(1, 4)) {
+      // SubstitueAliases (what ResetAliases / a renaming of several names at once does, swaps included) and the
+      // Translate* family, with maps over the names the texts mention
+      const std::vector<std::string> names = { "X1", "D1", "D2", "D3", "D4", "D5", "D6" };
+      StrSubstitutes m; std::vector<std::string> order;
+      const int pairs = rng.range(1, 3);
+      for (int k = 0; k < pairs; ++k) {
+        const auto from = rng.pick(names), to = rng.pick(names);
+        if (from != to && !m.contains(from)) { m.insert({ from, to }); order.push_back(from); }
+      }
+      const auto w = wireMap(m, order);
+      const auto tr = CreateTranslator(m);
+      const int kind = rng.range(0, 4);
+      const auto apply = [&](Thesaurus& th) {
+        switch (kind) {
+        case 0: th.SubstitueAliases(tr); break;
+        case 1: th.Translate(u, tr); break;
+        case 2: th.TranslateTerm(u, tr); break;
+        case 3: th.TranslateDef(u, tr); break;
+        default: th.TranslateAll(tr); break;
+        }
+      };
+      bool ok = (kind == 0 || kind == 4 || t.Contains(u));   // storage.at(target) of the single-entity forms is unchecked
+      if (ok) { Thesaurus probe = t; apply(probe); ok = textStateOk(probe); }
+      if (ok) {
+        apply(t);
+        const auto us = std::to_string(u);
+        emit(kind == 0 ? "c07 tsubst " + w : kind == 1 ? "c07 ttr " + us + " " + w : kind == 2 ? "c07 ttrt " + us + " " + w
+             : kind == 3 ? "c07 ttrd " + us + " " + w : "c07 ttrall " + w, "ok");
+      } else emit("c07 noop", "ok");
+      emit("c07 treport", tReport(t));
+      continue;
+    }
     const int r = rng.range(0, 99);
     if (r < 25) {
       const auto text = "n" + std::to_string(step);
@@ -322,15 +426,17 @@ static void textModelHistory(vh::Rng& rng, int L, bool fixedChain) {
       const auto uid = static_cast<uint32_t>(rng.range(1, 7));
       if (!a.empty()) { ins(uid, a, "k" + std::to_string(step), rng.chance(1, 2) ? "of " + refTo(rng.pick(aliases)) : std::string{}); continue; }
       emit("c07 noop", "ok");
-    } else if (r < 96) {
+    } else if (r < 94) {
       std::string a;
       for (const auto& cand : std::vector<std::string>{ "D5", "D6", "D1", "D2", "D3", "D4", "X1" })
         if (!t.FindAlias(cand).has_value()) { a = cand; break; }
       const bool subst = rng.chance(1, 2);
       if (!a.empty() && t.Contains(u)) { t.SetAliasFor(u, a, subst); emit("c07 talias " + std::to_string(u) + " " + hx(a) + " " + (subst ? "1" : "0"), "ok"); }
       else emit("c07 noop", "ok");
-    } else {
+    } else if (r < 97) {
       t.UpdateState(); emit("c07 tupdate", "ok");
+    } else {
+      emit("c07 noop", "ok");
     }
     emit("c07 treport", tReport(t));
   }
@@ -359,7 +465,9 @@ int main() {
   for (int h = 0; h < HF; ++h) fragmentHistory(rng, deep ? 30 : 20);
   for (int h = 0; h < HG; ++h) generalHistory(rng, deep ? 30 : 20);
   for (int h = 0; h < HG; ++h) textChainHistory(rng, deep ? 16 : 10);
-  textModelHistory(rng, 0, true);
-  for (int h = 0; h < (deep ? 1500 : 150); ++h) textModelHistory(rng, deep ? 20 : 12, false);
+  textModelHistory(rng, 0, 1);
+  textModelHistory(rng, 0, 2);
+  textModelHistory(rng, 0, 3);
+  for (int h = 0; h < (deep ? 1500 : 200); ++h) textModelHistory(rng, deep ? 20 : 14, 0);
   return 0;
 }
